@@ -471,7 +471,10 @@ def replay_c20(d, case):
         lines = f.read().split('\n')
     nf = int(lines[1])
     finest = int(lines[nf + 4])
-    pck = PlotfileCooker(plt)
+    try:
+        pck = PlotfileCooker(plt)
+    except Exception as e:
+        return True, 'accepted, but the reader cannot open it: %s: %s' % (type(e).__name__, str(e)[:120])
     for l in range(finest + 1):
         with open(os.path.join(plt, 'Level_%d' % l, 'Cell_H')) as f:
             cl = f.read().split('\n')
@@ -528,7 +531,7 @@ def replay_c02(d, case):
     if header_only:
         import shutil
         for l in range(len(E['boxes'])):
-            shutil.rmtree(os.path.join(plt, 'Level_%d' % l), ignore_errors=True)
+            shutil.rmtree(os.path.join(plt, '%s%d' % (case.get('level_prefix', 'Level_'), l)), ignore_errors=True)
     nlev_all = len(E['boxes'])
     try:
         pck = PlotfileCooker(plt, limit_level=limit, header_only=header_only, maxmins=maxmins)
@@ -582,7 +585,8 @@ def replay_c02(d, case):
             if [int(x) for x in c['indexes'][b][0]] != lo_ or [int(x) for x in c['indexes'][b][1]] != hi_:
                 return True, 'cells[%d][indexes][%d] = %s' % (l, b, c['indexes'][b])
             fname, off = E['offsets'][l][b]
-            if os.path.basename(c['files'][b]) != fname or int(c['offsets'][b]) != off:
+            want_rel = os.path.join('%s%d' % (case.get('level_prefix', 'Level_'), l), fname)
+            if os.path.normpath(os.path.relpath(c['files'][b], plt)) != os.path.normpath(want_rel) or int(c['offsets'][b]) != off:
                 return True, 'cells[%d] file/offset of box %d = %s %s, expected %s %s' % (l, b, c['files'][b], c['offsets'][b], fname, off)
             if maxmins:
                 for f in range(len(keys)):
@@ -923,13 +927,28 @@ def replay_c18(d, case):
                 if cells[f][0] != '{:.3}'.format(emin) or cells[f][1] != '{:.3}'.format(emax):
                     return True, 'field %r shows %s, expected %s %s' % (f, cells[f][:2], '{:.3}'.format(emin), '{:.3}'.format(emax))
             return False, 'table equal'
+        # default listing: every field exactly once, as its class or as a species (the same oracle as the engine's)
         info = Menu.field_info
-        def key_of(f):
-            for k in info:
-                if re.compile(info[k][0]).search(f) and k not in F:
-                    return k
+
+        def class_key(field_info, f):
+            for key in field_info:
+                if re.compile(field_info[key][0]).search(f):
+                    return key
             return f
-        return False, 'default listing printed'
+        keys = sorted(set(class_key(info, f) for f in F), key=str.lower)
+        species = sorted(re.sub(r'\)$', '', re.sub(r'^Y\(', '', f)) for f in F if re.search(info['Y'][0], f))
+        blocks = out.split('Species found in file:')
+        vtxt = blocks[0].split('Fields found in file:')[-1]
+        vnames = [w for l in vtxt.splitlines() if not l.startswith('+') for w in l.split()]
+        if sorted(vnames) != sorted(keys):
+            return True, 'default listing shows %s, the header\'s fields classify as %s' % (vnames, keys)
+        if species:
+            if len(blocks) < 2:
+                return True, 'no species listing although the header has %s' % species
+            snames = [w for l in blocks[1].splitlines() if not l.startswith('+') for w in l.split()]
+            if sorted(snames) != species:
+                return True, 'species listing shows %s, expected %s' % (snames, species)
+        return False, 'default listing equal'
     except Exception as e:
         return True, 'raised %s: %s' % (type(e).__name__, e)
     finally:
